@@ -1,9 +1,9 @@
-(** Extraction of the indexer model and the scope/type specifications (unit "scope") to OCaml
+(** Extraction of the indexer model and the (typed) declarative resolver ScopeSpecT (unit "scope") to OCaml
     (ExtrOcamlBasic only; N/positive/nat stay the extracted inductives; no Extract Constant of our own). *)
 Require Extraction.
 Require ExtrOcamlBasic.
 From Coq Require Import List NArith.
-From TG.Model Require Import CoreAst Scope BangOps Indexer ScopeSpec.
+From TG.Model Require Import CoreAst Scope BangOps Indexer ScopeSpecT.
 
 Extraction Language OCaml.
 Extraction "extract/scope_core.ml"
